@@ -7,7 +7,7 @@ MON = ("C07",)
 def run(ctx):
     from ..core import Result
     res = Result()
-    st = _enva.run_monitors(ctx, res, MON, quiet=True)
+    st = _enva.run_monitors(ctx, res, MON)
     res.coverage = _enva.coverage(st, MON, "C07 monitor at every top-level insert: event times never decrease; each "
                                   "unit continues from its previous position with its previous velocity (mod box); "
                                   "units at rest do not move; one chain with the initial speed; positions in [0, L); "
